@@ -100,8 +100,65 @@ def setup(ctx):
 
 
 # ------------------------------------------------------------------ inputs
-def gen_pair(rng, ctx, lo_len=0, hi_len=30, small=False, wide_ok=True, need_negative_gap=False):
+def gen_profile_pair(rng, profile, lo_len, hi_len):
+    """Two input classes the uniform generator reaches too rarely:
+    nuc_like - 4 letters, a match/mismatch matrix such as 5/-4, related sequences of length 12-60 and an affine penalty whose
+               opening is much more expensive than its extension (gap states stay positive over several cells);
+    tie_rich - 1-3 letters, 0/1 or match-only scores, cheap gaps: many cells share the maximum score and one call returns
+               several alignments of different length."""
+    if profile == "nuc_like":
+        k = 4
+        hit, miss = [(5, -4), (2, -3), (1, -1), (4, -5), (3, -2)][int(rng.integers(5))]
+        matrix = np.full((k, k), miss, dtype=np.int64)
+        np.fill_diagonal(matrix, hit)
+        if rng.random() < 0.3:
+            matrix[int(rng.integers(k)), int(rng.integers(k))] = int(rng.integers(-3, 3))       # one transition-like entry
+        gp = [(-10, -1), (-8, -2), (-5, -1), (-12, -1), (-6, -3), (-3, -1)][int(rng.integers(6))]
+        if rng.random() < 0.25:
+            gp = int(rng.choice([-2, -4, -7]))
+        n = int(rng.integers(max(lo_len, 12), max(hi_len, 60) + 1))
+    else:
+        k = int(rng.choice([1, 2, 2, 3]))
+        mk = str(rng.choice(["ties01", "identity1", "ones"]))
+        if mk == "ties01":
+            matrix = rng.integers(0, 2, size=(k, k)).astype(np.int64)
+        elif mk == "ones":
+            matrix = np.ones((k, k), dtype=np.int64)
+        else:
+            matrix = np.full((k, k), -int(rng.integers(0, 3)), dtype=np.int64)
+            np.fill_diagonal(matrix, int(rng.integers(1, 4)))
+        gp = [-1, -2, (-1, -1), (-2, -1), (-3, -1), -5][int(rng.integers(6))]
+        n = int(rng.integers(max(lo_len, 4), max(hi_len, 30) + 1))
+    c1 = G.gen_codes(rng, n, k)
+    c2 = list(c1)
+    for _ in range(int(rng.integers(0, 3 + n // 6))):
+        r = rng.random()
+        pos = int(rng.integers(len(c2) + 1))
+        if r < 0.45 and c2:
+            c2[min(pos, len(c2) - 1)] = int(rng.integers(k))
+        elif r < 0.7:
+            ins = [int(rng.integers(k))] * int(rng.integers(1, 5))
+            c2[pos:pos] = ins
+        elif len(c2) > max(lo_len, 3):
+            del c2[min(pos, len(c2) - 1):min(pos, len(c2) - 1) + int(rng.integers(1, 4))]
+    if rng.random() < 0.2:
+        c2 = G.gen_codes(rng, int(rng.integers(max(lo_len, 3), n + 1)), k)
+    if rng.random() < 0.5:
+        c1, c2 = c2, c1
+    kind = "letter" if rng.random() < 0.5 else "int"
+    a1 = G.alphabet(k, kind, 0)
+    same = rng.random() < 0.5
+    a2 = a1 if same else G.alphabet(k, kind, 1)
+    return dict(k=(k, k), K=(k, k), akind=(kind, kind), same_alph=same, a=(a1, a2), A=(a1, a2), matrix=matrix,
+                mkind=profile, mdtype=str(rng.choice(["int64", "int32", "int16"])), c1=[int(x) for x in c1], c2=[int(x) for x in c2], gp=gp)
+
+
+def gen_pair(rng, ctx, lo_len=0, hi_len=30, small=False, wide_ok=True, need_negative_gap=False, profiles=False):
     """Sequences, matrix and penalty (same classes as C08)."""
+    if profiles and not small and rng.random() < 0.35:
+        profile = "nuc_like" if rng.random() < 0.5 else "tie_rich"
+        ctx.op("input_profile_" + profile)
+        return gen_profile_pair(rng, profile, lo_len, hi_len)
     wide = wide_ok and not small and rng.random() < 0.08
     if wide:
         k1, k2 = [(300, 300), (300, 4), (70000, 3), (5, 70000)][int(rng.integers(4))]
@@ -390,7 +447,7 @@ def gen_band(rng, n, m):
 
 
 def case_banded(rng, ctx, allbands):
-    d = gen_pair(rng, ctx, lo_len=1 if allbands else 0, small=allbands)
+    d = gen_pair(rng, ctx, lo_len=1 if allbands else 0, small=allbands, profiles=True)
     local = bool(rng.random() < 0.5)
     if not ctx.allowed("banded_affine_sentinel_underflow") and isinstance(d["gp"], tuple) and not local:
         # quarantined class: keep the penalty pair, but only where the sentinel cannot underflow
@@ -517,7 +574,7 @@ def expect_gap_decline(ctx, P, seed, threshold):
 
 
 def case_gapped(rng, ctx, allseeds):
-    d = gen_pair(rng, ctx, lo_len=1, small=allseeds, need_negative_gap=True)
+    d = gen_pair(rng, ctx, lo_len=1, small=allseeds, need_negative_gap=True, profiles=True)
     log_pair(ctx, d)
     P = Pair(d)
     n, m = P.n, P.m
